@@ -196,6 +196,8 @@ impl Cache {
                     for tuples in records.values() {
                         to_rrs(name, now, tuples, &mut rrs);
                     }
+                    #[cfg(resolved_verif)]
+                    simseam::order::canonical(&mut rrs, "cache.any");
                 }
             }
             QueryType::Record(rtype) => {
